@@ -51,6 +51,9 @@ EPOCH0 = datetime.datetime(2020, 1, 1)
 # helpers
 
 
+_MSTR = {}
+
+
 def mstr(v):
     """metric value -> wire form (None | "nan" | "n/d")"""
     if v is None:
@@ -58,7 +61,12 @@ def mstr(v):
     v = float(v)
     if math.isnan(v):
         return "nan"
-    return frac_str(v)
+    r = _MSTR.get(v)
+    if r is None:
+        if len(_MSTR) > 200000:
+            _MSTR.clear()
+        r = _MSTR[v] = frac_str(v)
+    return r
 
 
 def errname(e):
@@ -83,16 +91,38 @@ def snapshot_bracket(br):
     return {"current": int(br.current_rung), "first_free": int(br._first_free_pos), "rungs": rungs}
 
 
-def snapshot_manager(mgr):
+def snapshot_manager(mgr, cache=None):
+    """`cache`: per-run dict index -> snapshot of a bracket below the primary one (such a
+    bracket is complete; its final snapshot is taken once, after it completed)"""
+    brs = []
+    prim = int(mgr._primary_bracket_id)
+    for i, b in enumerate(mgr._brackets):
+        if cache is not None and i < prim:
+            if i not in cache:
+                cache[i] = snapshot_bracket(b)
+            brs.append(cache[i])
+        else:
+            brs.append(snapshot_bracket(b))
     return {
-        "primary": int(mgr._primary_bracket_id),
+        "primary": prim,
         "offsets": [int(x) for x in mgr._bracket_id_to_offset],
-        "brackets": [snapshot_bracket(b) for b in mgr._brackets],
+        "brackets": brs,
     }
 
 
-def snapshot_scheduler(sch):
-    out = snapshot_manager(sch.bracket_manager)
+def wire(state, first=0):
+    """what goes over the wire: brackets below `first` (the primary bracket before the
+    operation) are complete, never change any more and are not repeated"""
+    out = dict(state)
+    n = len(state["brackets"])
+    out["num_brackets"] = n
+    out["first_shown"] = min(first, n)
+    out["brackets"] = state["brackets"][first:]
+    return out
+
+
+def snapshot_scheduler(sch, cache=None):
+    out = snapshot_manager(sch.bracket_manager, cache)
     out["pending"] = [
         [int(t), int(b), int(sl.rung_index), int(sl.level), int(sl.slot_index), tid_json(sl.trial_id)]
         for t, (b, sl) in sch._trial_to_pending_slot.items()
@@ -213,6 +243,7 @@ def run_scheduler(spec):
     ctor = dict(spec["ctor"])
     rng = random.Random(spec["seed"])
     lines, events = [], []
+    cache = {}
     try:
         sch, stub = make_scheduler(ctor)
     except Exception as e:  # constructor assertion
@@ -222,9 +253,9 @@ def run_scheduler(spec):
     mgr = sch.bracket_manager
     systems = systems_json(mgr.bracket_rungs)
     out0 = {"bracket_rungs": systems}
-    out0.update(snapshot_scheduler(sch))
+    out0.update(wire(snapshot_scheduler(sch, cache)))
     lines.append((header_for(ctor, "scheduler", systems), out0))
-    events.append({"ev": "init", "state": snapshot_scheduler(sch)})
+    events.append({"ev": "init", "state": snapshot_scheduler(sch, cache)})
     style = spec.get("style", "general")
     sign = spec.get("sign", 1)
     jobs = {}     # running trials
@@ -247,9 +278,12 @@ def run_scheduler(spec):
         prev = mgr.level_to_prev_level(bracket, level)
         return prev + 1 if spec.get("checkpointing", True) else 1
 
+    pre = [0]  # primary bracket before the current operation
+
     def do_result(tid, r, v):
         inp = {"op": "result", "trial": tid, "resource": r, "metric": mstr(v)}
-        before = snapshot_scheduler(sch)
+        before = snapshot_scheduler(sch, cache)
+        pre[0] = before["primary"]
         try:
             d = sch.on_trial_result(trials[tid], {METRIC: v, RES: r})
         except Exception as e:  # noqa
@@ -257,10 +291,10 @@ def run_scheduler(spec):
             events.append({"ev": "result-error", "trial": tid, "resource": r, "err": errname(e), "msg": str(e)[:200]})
             return None
         out = {"decision": d, "calls": stub.take()}
-        out.update(snapshot_scheduler(sch))
+        out.update(wire(snapshot_scheduler(sch, cache), pre[0]))
         lines.append((inp, out))
         events.append({"ev": "result", "trial": tid, "resource": r, "metric": mstr(v), "decision": d,
-                       "before": before, "state": snapshot_scheduler(sch)})
+                       "before": before, "state": snapshot_scheduler(sch, cache)})
         return d
 
     n_events = 0
@@ -299,7 +333,8 @@ def run_scheduler(spec):
             stub.next_has_config = has_config
             stub.asked = False
             inp = {"op": "suggest", "trial_id": next_id, "has_config": has_config}
-            before = snapshot_scheduler(sch)
+            before = snapshot_scheduler(sch, cache)
+            pre[0] = before["primary"]
             try:
                 sg = sch.suggest(next_id)
             except Exception as e:  # noqa
@@ -310,7 +345,7 @@ def run_scheduler(spec):
             if sg is None:
                 out = {"suggestion": {"kind": "none"}, "calls": calls}
                 events.append({"ev": "suggest-none", "asked": stub.asked, "has_config": has_config,
-                               "before": before, "state": snapshot_scheduler(sch)})
+                               "before": before, "state": snapshot_scheduler(sch, cache)})
             elif sg.spawn_new_trial_id:
                 tid = next_id
                 next_id += 1
@@ -324,7 +359,7 @@ def run_scheduler(spec):
                 jobs[tid] = Job(tid, int(b), int(sl.level), 1)
                 events.append({"ev": "start", "trial": tid, "bracket": int(b), "rung_index": int(sl.rung_index),
                                "slot_index": int(sl.slot_index), "level": int(sl.level), "cfg_level": cfg_level,
-                               "before": before, "state": snapshot_scheduler(sch)})
+                               "before": before, "state": snapshot_scheduler(sch, cache)})
             else:
                 tid = int(sg.checkpoint_trial_id)
                 b, sl = sch._trial_to_pending_slot[tid]
@@ -338,8 +373,8 @@ def run_scheduler(spec):
                 jobs[tid] = Job(tid, int(b), int(sl.level), start_resource(int(b), int(sl.level)))
                 events.append({"ev": "resume", "trial": tid, "bracket": int(b), "rung_index": int(sl.rung_index),
                                "slot_index": int(sl.slot_index), "level": int(sl.level), "cfg_level": cfg_level,
-                               "before": before, "state": snapshot_scheduler(sch)})
-            out.update(snapshot_scheduler(sch))
+                               "before": before, "state": snapshot_scheduler(sch, cache)})
+            out.update(wire(snapshot_scheduler(sch, cache), pre[0]))
             lines.append((inp, out))
         elif a == "report":
             tid = forced_tid if forced_tid is not None else rng.choice(sorted(jobs))
@@ -361,12 +396,14 @@ def run_scheduler(spec):
             if d != SchedulerDecision.CONTINUE:
                 del jobs[tid]
                 sch.on_trial_remove(trials[tid])
-                lines.append(({"op": "remove", "trial": tid}, snapshot_scheduler(sch)))
+                pre[0] = int(mgr._primary_bracket_id)
+                lines.append(({"op": "remove", "trial": tid}, wire(snapshot_scheduler(sch, cache), pre[0])))
                 late.append((tid, r + 1))
                 if rng.random() < 0.2 and script is None:
                     sch.on_trial_complete(trials[tid], {METRIC: v, RES: r})
+                    pre[0] = int(mgr._primary_bracket_id)
                     out = {"calls": stub.take()}
-                    out.update(snapshot_scheduler(sch))
+                    out.update(wire(snapshot_scheduler(sch, cache), pre[0]))
                     lines.append(({"op": "complete", "trial": tid, "resource": r, "metric": mstr(v)}, out))
         elif a == "fail":
             if forced_tid is not None:
@@ -380,7 +417,8 @@ def run_scheduler(spec):
             if was_pending:
                 b, sl = sch._trial_to_pending_slot[tid]
                 pend = [int(b), int(sl.rung_index), int(sl.slot_index)]
-            before = snapshot_scheduler(sch)
+            before = snapshot_scheduler(sch, cache)
+            pre[0] = before["primary"]
             jobs.pop(tid, None)
             try:
                 sch.on_trial_error(trials[tid])
@@ -390,10 +428,10 @@ def run_scheduler(spec):
                                "exc": type(e).__name__})
                 break
             out = {"calls": stub.take()}
-            out.update(snapshot_scheduler(sch))
+            out.update(wire(snapshot_scheduler(sch, cache), pre[0]))
             lines.append(({"op": "error", "trial": tid}, out))
             events.append({"ev": "error", "trial": tid, "was_pending": was_pending, "slot": pend,
-                           "before": before, "state": snapshot_scheduler(sch)})
+                           "before": before, "state": snapshot_scheduler(sch, cache)})
         elif a == "late":
             tid, r = late.pop(rng.randrange(len(late)))
             if tid in jobs:
@@ -404,14 +442,15 @@ def run_scheduler(spec):
                 break
             events[-1]["late"] = True
         elif a == "take":
+            pre[0] = int(mgr._primary_bracket_id)
             removed = [tid_json(t) for t in sch.trials_checkpoints_can_be_removed()]
             out = {"removed": removed}
-            out.update(snapshot_scheduler(sch))
+            out.update(wire(snapshot_scheduler(sch, cache), pre[0]))
             lines.append(({"op": "take_removable"}, out))
             events.append({"ev": "take", "removed": removed})
     # what is still in the list at the end also counts as reported
     events.append({"ev": "final", "removable": [tid_json(t) for t in sch._trials_checkpoints_can_be_removed],
-                   "state": snapshot_scheduler(sch), "running": sorted(jobs)})
+                   "state": snapshot_scheduler(sch, cache), "running": sorted(jobs)})
     return {"lines": lines, "events": events, "ctor": ctor, "systems": systems, "mode": ctor["mode"],
             "next_options": next_options}
 
@@ -443,7 +482,7 @@ def run_manager(spec):
         return {"lines": lines, "events": events, "ctor": ctor, "systems": None}
     systems = systems_json(mgr.bracket_rungs)
     out0 = {"bracket_rungs": systems}
-    out0.update(snapshot_manager(mgr))
+    out0.update(wire(snapshot_manager(mgr)))
     lines.append((header, out0))
     events.append({"ev": "init", "state": snapshot_manager(mgr)})
     open_jobs = []  # (bracket, SlotInRung)
@@ -467,7 +506,7 @@ def run_manager(spec):
             before = snapshot_manager(mgr)
             b, sl = mgr.next_job()
             out = {"bracket": int(b), "slot": [int(sl.rung_index), int(sl.level), int(sl.slot_index), tid_json(sl.trial_id)]}
-            out.update(snapshot_manager(mgr))
+            out.update(wire(snapshot_manager(mgr), before["primary"]))
             lines.append(({"op": "next_job"}, out))
             events.append({"ev": "next_job", "bracket": int(b), "slot": out["slot"], "before": before, "state": snapshot_manager(mgr)})
             open_jobs.append((b, sl))
@@ -529,7 +568,7 @@ def run_manager(spec):
                 # the mutated call happened to be legal: the job is answered
                 open_jobs = [(bb, ss) for (bb, ss) in open_jobs if not (bb == b and ss.rung_index == res.rung_index and ss.slot_index == res.slot_index)]
             out = {"not_promoted": None if np_ is None else [tid_json(t) for t in np_]}
-            out.update(snapshot_manager(mgr))
+            out.update(wire(snapshot_manager(mgr), before["primary"]))
             lines.append((inp, out))
             events.append({"ev": "on_result", "bracket": int(b), "input": inp, "not_promoted": out["not_promoted"],
                            "before": before, "state": snapshot_manager(mgr)})
